@@ -247,7 +247,7 @@ CONFIG["C08"] = dict(
 )
 
 CONFIG["C06"] = dict(
-    lean_modules=["Props.C06"], generators=["C06"], level="proof",
+    lean_modules=["Props.C06", "Props.C06Model"], generators=["C06"], level="proof",
     rule="key generation for (n,t) in {(2,1),(3,1),(3,2),(5,2),(7,3),(10,9),(40,13)} (thorough adds (254,1),(254,253),(100,50)) compared share by share with the model (polynomial derived from the seed by the model's own SHA3/ChaCha20/mapToFr), "
          "guards; stateless reconstruction: every subset of size t..t+2 for n<=6 (thorough n<=7) in random order, an invalid share of 8 kinds at every position, duplicate/out-of-range signers, extra malformed unused share, "
          "index sets straddling the 8-index limb batches up to index 253; every reconstruction compared with the model (coefficient computed by the textbook formula AND by the limb-batched loop, which must agree) and with the one group signature a0*H; "
@@ -256,7 +256,9 @@ CONFIG["C06"] = dict(
     level_text="Theorems: for every field, polynomial of degree <= t and set of >= t+1 distinct nodes, combining shares P(x_i)*h with the Lagrange coefficients gives P(0)*h (hence identical output for every subset/order; public shares interpolate to the group key); "
                "products of <= 8 indices <= 255 fit a 64-bit limb; the stateful object never returns a signature failing group verification, < t+1 shares give not-enough-shares. "
                "coeff_is_lagrange: for every index list (entries <= 255) and position the limb-batched loop with sign tracking and Fermat inversion (Model.Threshold.coeff, the function the driver runs) equals the textbook "
-               "coefficient prod x_j/(x_j-x_i) in F_r, r prime by a kernel-checked Pratt certificate; c_loop_reconstructs: hence the C loop's weights reconstruct P(0)*h.",
+               "coefficient prod x_j/(x_j-x_i) in F_r, r prime by a kernel-checked Pratt certificate; c_loop_reconstructs: hence the C loop's weights reconstruct P(0)*h. "
+               "Props.C06Model.model_threshold_reconstruction: the same for the EXECUTABLE model - with the model's own curve arithmetic (Mathlib's group law of E1 by Proofs/CurveGroup) and the limb-batched coefficients, for every list of distinct abscissas <= 255, "
+               "every polynomial Q over F_r of degree below the number of signers and every hash point H on the curve that the membership test accepts, Curve.sum of coeff_i * (Q(x_i) * H) equals Q(0) * H as values of the model.",
     level_note="Lean kernel + correspondence",
     assumptions=["BLST multi-scalar multiplication and Fr inversion compute the field/group operations"],
 )
